@@ -12,8 +12,9 @@ CHECK = {
              "every start; replace_and_simplify(n, True|False) for every n (agreement on consistent "
              "assignments, exception only if none) followed by postfix/flagger/string/simplify on the "
              "replaced tree; transform_negated_joins with volume sets {}, {i}, {i,j}, all (volumes "
-             "keep their function, no negated join left) followed by explicit infix -> InfixEvaluator "
-             "on every node. non-trivial = distinct (tree shape, set of branch tags reached) class "
+             "keep their function, no negated join left) followed by explicit infix (fully "
+             "parenthesised and with the outer parentheses omitted, in front of a guard page) -> "
+             "InfixEvaluator on every node. K = 6 (quick) / 7 (thorough). non-trivial = distinct (tree shape, set of branch tags reached) class "
              "of a state with >= 2 nodes."),
     "assumptions": [
         "surface identity matters only through the numeric LocalSurfaceId order: surfaces are "
@@ -22,9 +23,12 @@ CHECK = {
         "replace_and_simplify is applied once per tree (a second call trips its own debug "
         "assertions on literal True nodes), transform_negated_joins only to alias-free trees "
         "(documented precondition), both as production / the unit tests do",
-        "this commit has no production tree->infix converter: the harness emits the documented "
-        "explicit, fully parenthesised infix form of the De Morgan'ed tree; expressions containing "
-        "the constant False cannot be written in that token language and are skipped",
+        "this commit has no production tree->infix converter (transform_negated_joins and "
+        "InfixEvaluator are only reached from unit tests): the harness emits the documented explicit "
+        "infix form of the De Morgan'ed tree; expressions containing the constant False cannot be "
+        "written in that token language and are skipped",
+        "simplify() on insert-built trees is a no-op by construction (insert already simplifies one "
+        "level); it is exercised non-trivially on the replaced trees",
         "CELERITAS_DEBUG is off: library assertions are not an oracle; malformed results are "
         "detected by the harness's own tree analysis before any library visitor is called",
     ],
